@@ -315,6 +315,9 @@ func runJob(ld *sym.Loaded, j *job, tier, scratch string, verbose bool) (res *sy
 	if _, ok := j.spec.Opts["symlen"]; ok {
 		c.SymbolicLen = true
 	}
+	if j.spec.Opts["races"] == "1" {
+		c.Races = true
+	}
 	if j.spec.Opts["clock"] == "fixed" {
 		c.FixedClock = true
 	}
@@ -470,6 +473,23 @@ func nativeShowsProblem(nr *nativeResult) bool {
 }
 
 func runNative(repo, vdir, sub string, items []*replayItem, overlay string) {
+	if len(items) > 1 {
+		// the race detector reports a given race once per process: data-race items get a process each
+		var rest []*replayItem
+		for _, it := range items {
+			if strings.Contains(it.harness, "_race") {
+				runNative(repo, vdir, sub, []*replayItem{it}, overlay)
+			} else {
+				rest = append(rest, it)
+			}
+		}
+		if len(rest) < len(items) {
+			if len(rest) > 0 {
+				runNative(repo, vdir, sub, rest, overlay)
+			}
+			return
+		}
+	}
 	batch := filepath.Join(vdir, "replay", "tmp", "native", "batch-"+sub+".txt")
 	var sb strings.Builder
 	var owner []int // batch line -> item
@@ -488,15 +508,31 @@ func runNative(repo, vdir, sub string, items []*replayItem, overlay string) {
 	if subDir[sub] == "" {
 		pkg = "."
 	}
-	cmd := exec.Command("go", "test", "-v", "-tags", "verif", "-vet=off", "-count=1", "-run", "^TestVPReplay$", "-timeout", "20m", "-overlay", overlay, pkg)
+	args := []string{"test", "-v", "-tags", "verif", "-vet=off", "-count=1", "-run", "^TestVPReplay$", "-timeout", "20m", "-overlay", overlay}
+	for _, it := range items {
+		if strings.Contains(it.harness, "_race") {
+			// harnesses about data races are replayed under the race detector
+			args = append(args, "-race")
+			break
+		}
+	}
+	cmd := exec.Command("go", append(args, pkg)...)
 	cmd.Dir = repo
 	cmd.Env = append(os.Environ(), "GOFLAGS=-mod=readonly", "GOPROXY=off", "GOSUMDB=off", "GOTOOLCHAIN=local", "VP_BATCH="+batch)
 	out, err := cmd.CombinedOutput()
 	idx := 0
+	raceSeen := false
 	for _, line := range strings.Split(string(out), "\n") {
+		if strings.Contains(line, "WARNING: DATA RACE") {
+			raceSeen = true // reported by the race detector while the current item ran
+		}
 		if strings.HasPrefix(line, "VP-RESULT: ") {
 			var nr nativeResult
 			if json.Unmarshal([]byte(strings.TrimPrefix(line, "VP-RESULT: ")), &nr) == nil && idx < len(owner) {
+				if raceSeen && nr.Panic == "" {
+					nr.Panic = "DATA RACE (go test -race)"
+				}
+				raceSeen = false
 				it := items[owner[idx]]
 				if it.res == nil || (!nativeShowsProblem(it.res) && nativeShowsProblem(&nr)) {
 					it.res = &nr
